@@ -54,28 +54,28 @@ FSM_OPERATION_MAP_SOURCE = {
     # 在 ! 符号之后
     FSMStatus.AFTER_21: {
         "=": FSMOperate.add_and_handle_cache_to_wait(marks=AMTMark.NONE),  # 符号：!=
-        END: FSMOperate.raise_error(),
+        END: FSMOperate.handle_cache_to_end(marks=AMTMark.NONE),
         DEFAULT: FSMOperate.handle_cache_to_wait(marks=AMTMark.NONE),  # 符号：!
     },
 
     # 在 & 符号之后
     FSMStatus.AFTER_26: {
         "&": FSMOperate.add_and_handle_cache_to_wait(marks=AMTMark.NONE),  # 符号：&&
-        END: FSMOperate.raise_error(),
+        END: FSMOperate.handle_cache_to_end(marks=AMTMark.NONE),
         DEFAULT: FSMOperate.handle_cache_to_wait(marks=AMTMark.NONE),  # 符号：&
     },
 
     # 在 - 符号之后
     FSMStatus.AFTER_2D: {
         "-": FSMOperate.add_cache_to(status=FSMStatus.IN_EXPLAIN_1),  # 符号：--
-        END: FSMOperate.raise_error(),
+        END: FSMOperate.handle_cache_to_end(marks=AMTMark.NONE),
         DEFAULT: FSMOperate.handle_cache_to_wait(marks=AMTMark.NONE)
     },
 
     # 在 / 符号之后
     FSMStatus.AFTER_2F: {
         "*": FSMOperate.add_cache_to(status=FSMStatus.IN_EXPLAIN_2),  # 符号：/*
-        END: FSMOperate.raise_error(),
+        END: FSMOperate.handle_cache_to_end(marks=AMTMark.NONE),
         DEFAULT: FSMOperate.handle_cache_to_wait(marks=AMTMark.NONE)
     },
 
@@ -84,14 +84,14 @@ FSM_OPERATION_MAP_SOURCE = {
         "=": FSMOperate.add_cache_to(status=FSMStatus.AFTER_3C_3D),  # 符号：<=
         ">": FSMOperate.add_and_handle_cache_to_wait(marks=AMTMark.NONE),  # 符号：<>
         "<": FSMOperate.add_and_handle_cache_to_wait(marks=AMTMark.NONE),  # 符号：<<
-        END: FSMOperate.raise_error(),
+        END: FSMOperate.handle_cache_to_end(marks=AMTMark.NONE),
         DEFAULT: FSMOperate.handle_cache_to_wait(marks=AMTMark.NONE)  # 符号：<
     },
 
     # 在 < 符号之后
     FSMStatus.AFTER_3C_3D: {
         ">": FSMOperate.add_and_handle_cache_to_wait(marks=AMTMark.NONE),  # 符号：<=>
-        END: FSMOperate.raise_error(),
+        END: FSMOperate.handle_cache_to_end(marks=AMTMark.NONE),
         DEFAULT: FSMOperate.handle_cache_to_wait(marks=AMTMark.NONE)  # 符号：<=
     },
 
@@ -99,14 +99,14 @@ FSM_OPERATION_MAP_SOURCE = {
     FSMStatus.AFTER_3E: {
         "=": FSMOperate.add_and_handle_cache_to_wait(marks=AMTMark.NONE),  # 符号：>=
         ">": FSMOperate.add_and_handle_cache_to_wait(marks=AMTMark.NONE),  # 符号：>>
-        END: FSMOperate.raise_error(),
+        END: FSMOperate.handle_cache_to_end(marks=AMTMark.NONE),
         DEFAULT: FSMOperate.handle_cache_to_wait(marks=AMTMark.NONE)  # 符号：>
     },
 
     # 在 | 符号之后
     FSMStatus.AFTER_7C: {
         "|": FSMOperate.add_and_handle_cache_to_wait(marks=AMTMark.NONE),  # 符号：||
-        END: FSMOperate.raise_error(),
+        END: FSMOperate.handle_cache_to_end(marks=AMTMark.NONE),
         DEFAULT: FSMOperate.handle_cache_to_wait(marks=AMTMark.NONE)  # 符号：|
     },
 
